@@ -35,8 +35,17 @@ import (
 
 var apis = []string{"urls", "fileid", "locs", "vidlocs"}
 
+// the four public read paths (vidMap methods, promoted by VerifVidMap and by MasterClient)
+type lookuper interface {
+	LookupVolumeServerUrl(vid string) ([]string, error)
+	LookupFileId(fileId string) ([]string, error)
+	GetLocations(vid uint32) ([]wdclient.Location, bool)
+	GetVidLocations(vid string) ([]wdclient.Location, error)
+}
+
 type execution struct {
 	vm     wdclient.VerifVidMap
+	lk     lookuper
 	dcOf   map[string]string
 	vids   []int
 	holds  map[int][]wdclient.Location
@@ -66,14 +75,14 @@ func urlsOf(l []wdclient.Location) []string {
 func (x *execution) lookup(v int, api string) (bool, []string) {
 	switch api {
 	case "urls":
-		us, err := x.vm.LookupVolumeServerUrl(strconv.Itoa(v))
+		us, err := x.lk.LookupVolumeServerUrl(strconv.Itoa(v))
 		if err != nil {
 			return false, []string{}
 		}
 		return true, append([]string{}, us...)
 	case "fileid":
 		f := strconv.Itoa(v) + "," + fid
-		us, err := x.vm.LookupFileId(f)
+		us, err := x.lk.LookupFileId(f)
 		if err != nil {
 			return false, []string{}
 		}
@@ -87,10 +96,10 @@ func (x *execution) lookup(v int, api string) (bool, []string) {
 		}
 		return true, r
 	case "locs":
-		l, found := x.vm.GetLocations(uint32(v))
+		l, found := x.lk.GetLocations(uint32(v))
 		return found, urlsOf(l)
 	case "vidlocs":
-		l, err := x.vm.GetVidLocations(strconv.Itoa(v))
+		l, err := x.lk.GetVidLocations(strconv.Itoa(v))
 		if err != nil {
 			return false, []string{}
 		}
@@ -171,7 +180,12 @@ func (x *execution) storm(calls []tr.Ev) {
 
 func runExec(ex []tr.Ev, w *tr.Writer) {
 	r := ex[0]
+	if tr.B(r, "mc") {
+		runMcExec(ex, w)
+		return
+	}
 	x := &execution{vm: wdclient.VerifNewVidMap(tr.S(r, "dc")), dcOf: map[string]string{}, holds: map[int][]wdclient.Location{}}
+	x.lk = x.vm
 	for _, l := range tr.List(r["locs"]) {
 		lm, _ := l.(map[string]interface{})
 		u, _ := lm["u"].(string)
